@@ -643,6 +643,20 @@ def body_effects(imp, fallible):
     return (tuple(lets), tuple(segs))
 
 
+def parent_calls_without_propagation(imp):
+    """names of the bare #[parent] fields whose fallible conversion (`.try_into_existing(..)`) is called as a statement without `?`:
+    the error it returns would be dropped instead of being returned by the enclosing Try.. conversion"""
+    blk = fn_block(imp)
+    out = []
+    for st in (blk[1:] if blk else []):
+        if st[0] == 'stmt' and isinstance(st[1], list) and st[1][0] != 'try':
+            t = sem_text(st[1])
+            m = PARENT_CALL_RE.match(t)
+            if m and '.try_into_existing(' in t:
+                out.append(m.group(1))
+    return out
+
+
 # ---------------------------------------------------------------------------------------------------
 # C02: the designated arms of an enum conversion (README rules)
 # ---------------------------------------------------------------------------------------------------
